@@ -168,6 +168,14 @@ class Exec:
         c = B.ref_prefix_crc(self.ref, self.consumed)
         return -1 if c < 0 else B.dg31(c)
 
+    def stuck_why(self) -> str:
+        """"error-set": the application waits although the stream already carries an error
+        (public API: StreamReader.exception())."""
+        try:
+            return "error-set" if (self.reader is not None and self.reader.exception() is not None) else ""
+        except Exception:  # noqa: BLE001
+            return ""
+
     def stale_peek(self) -> int:
         """Only names the clause: does the parser hold input back although nobody is paused?"""
         try:
@@ -290,7 +298,7 @@ class Exec:
             if finished():
                 break
             if ran == 0 and not acted and i >= len(queue) and (closed or not close_after):
-                self.rec("stuck", k=self.stale_peek())
+                self.rec("stuck", k=self.stale_peek(), s=self.stuck_why())
                 break
             if self.loop.steps - self.steps0 > hard:
                 self.rec("budget")
@@ -663,6 +671,43 @@ def plateau_plans(ctx: Ctx, rng: Any, bodies: List[B.Body], per_body: int) -> Li
     return plans
 
 
+def error_after_chunk_end_plans(ctx: Ctx, rng: Any, bodies: List[B.Body]) -> List[dict]:
+    """Chunked + corrupt coded bodies: the application has read everything decoded so far and waits; the
+    next network piece first completes an HTTP chunk without adding any output (the waiting read is woken
+    with nothing to return) and then carries the input the decoder rejects - the error must still reach
+    the read."""
+    plans = []
+    for body in bodies:
+        if body.codec == "identity" or body.ref.ok or body.ref.why != "corrupt":
+            continue
+        e = B.first_error_offset(body.codec, body.enc)
+        cum = B.stream_profile(body.codec, body.enc)
+        if e <= 1 or cum[e] == 0:
+            continue
+        # the stretch of input right before the rejected byte that decodes to nothing (e.g. the checksum
+        # whose last byte fails): the HTTP chunk ends inside it, the network cuts where it begins
+        i = min(k for k in range(1, e + 1) if cum[k] == cum[e])
+        hi = min(e, len(body.enc) - 1)
+        if hi <= i:
+            continue
+        for b in {hi, rng.randint(i + 1, hi)}:
+            chunks = [b, len(body.enc) - b]
+            wire, offmap = B.frame(body.enc, "chunked", chunks)
+            data_end = B.wire_offset(offmap, rng.randint(i, b - 1))     # the rest of chunk 1 adds no output
+            for side in ("client", "server"):
+                plan: Dict[str, Any] = {"side": side, "codec": body.codec, "framing": "chunked", "enc": body.enc,
+                                        "ref": body.ref, "limit": rng.choice([64, 65536]),
+                                        "name": f"{body.name}/err-after-chunk-end@{b}", "kind": body.kind,
+                                        "gap": rng.choice([3, 6]), "glue": rng.random() < 0.5, "cyield": 0,
+                                        "chunks": chunks, "cuts": [data_end],
+                                        "sched": rng.choice([[("read", 4096)], [("readany",)], [("readchunk",)],
+                                                             [("iter_chunked", 512)]])}
+                if side == "server":
+                    plan.update(srvop="stream", cms=0, name="srv/stream/" + plan["name"])
+                plans.append(plan)
+    return plans
+
+
 def form_bodies(rng: Any) -> List[B.Body]:
     """Bodies that post() can parse: a=<latin-1 text without separators>."""
     out = []
@@ -766,11 +811,13 @@ def judge(ctx: Ctx, traces: List[dict], label: str) -> None:
         plan = t.get("plan", {})
         if v.clause == "TruncatedStreamCleanEof":
             sig = f"{v.clause}: codec={plan.get('codec')}"
+        elif v.clause == "ErrorSetReaderWaits":
+            sig = f"{v.clause}: chunked body, error set after a data-less wake-up of the waiting read"
         elif v.clause.startswith("StalePause"):
             sig = f"{v.clause}: framing={plan.get('framing')} coded={plan.get('codec') != 'identity'}"
         else:
             sig = (f"{v.clause}: {cfg['side']} codec={plan.get('codec')} framing={plan.get('framing')} "
-                   f"kind={plan.get('kind', t['src'])} limit={cfg['limit']}")
+                   f"kind={plan.get('kind', t['src'])}")
         detail = {"trace": {"cfg": cfg, "src": t["src"], "name": t["name"],
                             "events": t["events"][max(0, v.pos - 30):v.pos + 1]},
                   "plan": plan, "failed_at": v.pos, "event": ev, "label": label}
@@ -1177,6 +1224,7 @@ def run(ctx: Ctx) -> None:
     good = [b for b in bodies if b.kind in ("random", "members", "empty-members")]
     plans += aligned_plans(ctx, rng, bodies)
     plans += plateau_plans(ctx, rng, good, ctx.pick(2, 6))
+    plans += error_after_chunk_end_plans(ctx, rng, bodies)
     plans += multipart_plans(ctx, rng)
     plans += bomb_plans(ctx, rng)
     ctx.log(f"{len(plans)} corpus executions planned ({len(bodies)} bodies)")
